@@ -52,3 +52,48 @@ Theorem C08_aes_rejects : forall (D : bytes -> bytes) ct,
   length ct < 32 \/ length ct mod blk <> 0 -> exists e, aes_decrypt D ct = Err e.
 Proof. exact aes_rejects. Qed.
 Print Assumptions C08_aes_rejects.
+
+(* ---- the AES-256 block primitive itself (Aes.v): the block-cipher hypotheses above are discharged ---- *)
+From Cinco Require Import Codec Aes AesLemmas.
+Open Scope nat_scope.   (* Codec opens N_scope *)
+
+(* for every 32-byte key and every 16-byte block the inverse cipher undoes the cipher; the result is a
+   16-byte block of bytes again *)
+Theorem C08_aes_block_inverse : forall k b,
+  length k = 32 -> bytes_ok k = true -> length b = 16 -> bytes_ok b = true ->
+  aes256_decrypt_block k (aes256_encrypt_block k b) = b /\
+  length (aes256_encrypt_block k b) = 16 /\
+  bytes_ok (aes256_encrypt_block k b) = true.
+Proof. exact aes256_block_inverse. Qed.
+Print Assumptions C08_aes_block_inverse.
+
+(* ... and the other way round: under each key the cipher is a permutation of the 16-byte blocks *)
+Theorem C08_aes_block_permutation : forall k c,
+  bytes_ok k = true -> bytes_ok c = true ->
+  aes256_encrypt_block k (aes256_decrypt_block k c) = c.
+Proof. exact aes256_encrypt_decrypt. Qed.
+Print Assumptions C08_aes_block_permutation.
+
+(* C08_aes_roundtrip for a block cipher whose inverse law is only known on blocks of BYTES (a cipher built
+   on a 256-entry S-box cannot invert on numbers >= 256, so C08_aes_roundtrip itself cannot be instantiated) *)
+Theorem C08_aes_roundtrip_over_bytes : forall E D : bytes -> bytes,
+  (forall b, length b = blk -> bytes_ok b = true -> D (E b) = b) ->
+  (forall b, length b = blk -> bytes_ok b = true -> length (E b) = blk /\ bytes_ok (E b) = true) ->
+  forall iv text, length iv = blk -> bytes_ok iv = true -> bytes_ok text = true ->
+  aes_decrypt D (aes_encrypt E iv text) = Ok text.
+Proof. exact aes_roundtrip_over_bytes. Qed.
+Print Assumptions C08_aes_roundtrip_over_bytes.
+
+(* AesProvider.decrypt (AesProvider.encrypt p) = p with the AES-256 of Aes.v: no hypothesis about the block
+   cipher is left -- every 32-byte key, every plaintext byte string, every 16-byte IV *)
+Theorem C08_aes_roundtrip_concrete : forall k iv text,
+  length k = 32 -> bytes_ok k = true -> length iv = 16 -> bytes_ok iv = true -> bytes_ok text = true ->
+  aes_decrypt (aes256_decrypt_block k) (aes_encrypt (aes256_encrypt_block k) iv text) = Ok text.
+Proof. exact aes256_cbc_roundtrip. Qed.
+Print Assumptions C08_aes_roundtrip_concrete.
+
+Theorem C08_aes_layout_concrete : forall k iv text, length iv = 16 ->
+  firstn blk (aes_encrypt (aes256_encrypt_block k) iv text) = iv /\
+  length (aes_encrypt (aes256_encrypt_block k) iv text) = blk + blk * (length text / blk + 1).
+Proof. exact aes256_cbc_layout. Qed.
+Print Assumptions C08_aes_layout_concrete.
